@@ -12,7 +12,10 @@ OPS = ["streams.streams(mask,max_len)", "FlwdirRaster.streams(mask|min_sto,max_l
 RULE = ("loop-free networks on rasters <= 56 cells (quick) / <= 400 (thorough): D8 networks from random DEMs, "
         "arbitrary forests, chains and combs (long streams for the split rule); stream masks = none, "
         "downstream closures of random cells, accumulation thresholds, min_sto; max_len 0..9; custom "
-        "integer/quarter coordinate rasters and integer transforms; non-trivial = stream network with >= 2 "
+        "coordinate arrays xs / ys of independently drawn dtypes (int64, int32, float32, float64), 1-D or raster "
+        "shaped (C / F / transposed layout), values = multiples of 1/4 around offsets up to 2^62 that are exact in "
+        "their own dtype but in general not in the other one (fractions, > 24 / 31 / 53 significant bits), "
+        "and integer transforms; non-trivial = stream network with >= 2 "
         "cells, >= 1 confluence and a path of >= 3 cells; distinct = SHA-1 of (op, network, mask, max_len, ...)")
 
 CLAUSES = ["linked", "once", "cover", "interior", "ends", "pits", "size"]
@@ -119,10 +122,68 @@ def stream_net_features(ds, mask):
 
 
 def scaled(v, scale):
+    """exact: integer coordinates (numpy int64 beyond 2^53) must not travel through a Python float"""
+    if isinstance(v, (int, np.integer)) and not isinstance(v, (bool, np.bool_)):
+        return int(v) * scale
     f = Fraction(float(v)) * scale
     if f.denominator != 1:
         raise ValueError(f"coordinate {v!r} not a multiple of 1/{scale}")
     return int(f)
+
+
+# custom coordinate arrays: x and y are two independent user arrays (np.meshgrid of integer column numbers and float
+# latitudes, a float32 easting raster next to a float64 northing raster, ...). Every value is a multiple of 1/4 and
+# exact in the dtype of its own array; the offsets make it inexact in (some of) the other dtypes.
+_XY_OFFSETS = {
+    "int32": [0, 0, 1000, (1 << 24) + 1, (1 << 30) + 1],
+    "int64": [0, 0, 1000, (1 << 24) + 1, (1 << 31) + 1, (1 << 40) + 1, (1 << 53) + 1, (1 << 62) + 1],
+    "float32": [0, 0, 1 << 10, 1 << 21],
+    "float64": [0, 0, 0, 1 << 24, 5200012, 1 << 31, 1 << 40, 1 << 50],
+}
+
+
+def _gen_coord_array(rng, n, dtype):
+    """n coordinates of the given dtype and their exact values times 4"""
+    off = rng.choice(_XY_OFFSETS[dtype]) * rng.choice([1, -1])
+    if dtype.startswith("int"):
+        q = [4 * (off + rng.randint(-40, 40)) for _ in range(n)]
+        a = np.array([v // 4 for v in q], dtype=dtype)
+    else:
+        q = [4 * off + rng.randint(-40, 40) for _ in range(n)]
+        a = np.array([v / 4 for v in q], dtype=dtype)
+    assert a.dtype == np.dtype(dtype) and [scaled(v, 4) for v in a] == q, "coordinate generator must be exact"
+    return a, q
+
+
+def _survives(a, dtype):
+    """do all values of a survive a cast to dtype unchanged?"""
+    with np.errstate(all="ignore"):
+        b = a.astype(dtype)
+    return all(np.isfinite(float(w)) and scaled(v, 4) == scaled(w, 4) for v, w in zip(a, b))
+
+
+def _gen_xy(ctx, rng, n, shape):
+    """custom coordinates: (xs flat, ys flat, exact 4*xs, exact 4*ys, call kwargs, description)"""
+    if rng.random() < 0.25:
+        dx = dy = "float64"
+    else:
+        dx = rng.choice(sorted(_XY_OFFSETS))
+        dy = rng.choice(sorted(_XY_OFFSETS))
+    xs, xs4 = _gen_coord_array(rng, n, dx)
+    ys, ys4 = _gen_coord_array(rng, n, dy)
+    call, form = {}, {}
+    for nm, a in (("xs", xs), ("ys", ys)):
+        if rng.random() < 0.5:
+            call[nm], form[nm] = a, "1d"
+        else:
+            call[nm], form[nm] = _layout(a.reshape(shape), rng), "raster"
+    ctx.count(f"xy:{dx}/{dy}")
+    ctx.count("xy-shape:" + form["xs"] + "/" + form["ys"])
+    if dx != dy:
+        ctx.count("xy:dtypes-differ")
+        if not _survives(ys, dx) or not _survives(xs, dy):
+            ctx.count("xy:cast-to-other-dtype-changes-values")
+    return xs, ys, xs4, ys4, call, {"xs_dtype": dx, "ys_dtype": dy, "xs_form": form["xs"], "ys_form": form["ys"]}
 
 
 def lens_flat(paths):
@@ -292,10 +353,10 @@ def _streams_case(ctx, rng, pstreams, flw, ds, shape, seq):
     # 2. the public wrapper with custom coordinates / extra maps
     use_xy = rng.random() < 0.6
     scale = 4 if use_xy else 2
-    xs = ys = None
+    xs = ys = xs4 = ys4 = None
+    xy_call, xy_desc = {}, {}
     if use_xy:
-        xs = np.array([rng.randint(-40, 40) / 4 for _ in range(n)], dtype=np.float64)
-        ys = np.array([rng.randint(-40, 40) / 4 for _ in range(n)], dtype=np.float64)
+        xs, ys, xs4, ys4, xy_call, xy_desc = _gen_xy(ctx, rng, n, shape)
     nmaps = rng.choice([0, 1, 2])
     maps = [np.array([rng.randint(-99, 99) for _ in range(n)], dtype=np.int64) for _ in range(nmaps)]
     kwargs = {f"m{j}": (_layout(maps[j].reshape(shape), rng) if rng.random() < 0.5 else maps[j]) for j in range(nmaps)}
@@ -310,9 +371,7 @@ def _streams_case(ctx, rng, pstreams, flw, ds, shape, seq):
             # documented: "if a mask is given the minimum stream order is ignored"
             call["min_sto"] = rng.choice([2, 3])
             ctx.count("mask+min_sto")
-    if use_xy:
-        call["xs"] = xs.reshape(shape) if rng.random() < 0.5 else xs
-        call["ys"] = ys.reshape(shape)
+    call.update(xy_call)
     feats = flw.streams(**call, **kwargs)
     map_list = list(maps)
     if min_sto is not None and min_sto > 1:
@@ -327,8 +386,7 @@ def _streams_case(ctx, rng, pstreams, flw, ds, shape, seq):
     fimpl = _canon_feats(feats, keys, scale, n)
     lens, flat = lens_flat(impl)
     desc = {"op": "streams", "ds": ds, "shape": list(shape), "mask": mask, "mask_kind": kind, "max_len": max_len,
-            "min_sto": min_sto, "seq": seq, "xs4": None if xs is None else [scaled(v, 4) for v in xs],
-            "ys4": None if ys is None else [scaled(v, 4) for v in ys], "transform": _transform_ints(flw),
+            "min_sto": min_sto, "seq": seq, "xs4": xs4, "ys4": ys4, **xy_desc, "transform": _transform_ints(flw),
             "maps": [ints(m) for m in map_list]}
     fargs = _feature_args(impl, n, xs, ys, flw, shape, map_list)
 
@@ -365,6 +423,7 @@ def _streams_case(ctx, rng, pstreams, flw, ds, shape, seq):
 
 
 def _feature_args(paths, n, xs, ys, flw, shape, map_list):
+    """xs / ys: the flat coordinate arrays handed to the library (any dtype; `scaled` is exact for each)"""
     lens, flat = lens_flat(paths)
     args = {"lens": lens, "flat": flat, "n": n, "nmaps": len(map_list),
             "maps": [int(v) for m in map_list for v in np.asarray(m).ravel().tolist()]}
@@ -443,12 +502,11 @@ def _vectorize_case(ctx, rng, flw, ds, shape):
     nxt = canon_idx(flw.idxs_ds if direction == "down" else flw.idxs_us_main, n)
     use_xy = rng.random() < 0.5
     scale = 4 if use_xy else 2
-    xs = ys = None
-    call = {}
+    xs = ys = xs4 = ys4 = None
+    call, xy_desc = {}, {}
     if use_xy:
-        xs = np.array([rng.randint(-40, 40) / 4 for _ in range(n)], dtype=np.float64)
-        ys = np.array([rng.randint(-40, 40) / 4 for _ in range(n)], dtype=np.float64)
-        call.update(xs=xs.reshape(shape), ys=ys)
+        xs, ys, xs4, ys4, xy_call, xy_desc = _gen_xy(ctx, rng, n, shape)
+        call.update(xy_call)
     nmaps = rng.choice([0, 1])
     maps = [np.array([rng.randint(-99, 99) for _ in range(n)], dtype=np.int64) for _ in range(nmaps)]
     kwargs = {f"m{j}": maps[j] for j in range(nmaps)}
@@ -462,8 +520,7 @@ def _vectorize_case(ctx, rng, flw, ds, shape):
     # what the property fixes: one two-vertex feature (i, nxt i) per selected valid cell
     want = [[i, nxt[i]] for i in range(n) if nxt[i] != n and (mask is None or mask[i])]
     desc = {"op": "vectorize", "ds": ds, "shape": list(shape), "mask": mask, "direction": direction,
-            "xs4": None if xs is None else [scaled(v, 4) for v in xs],
-            "ys4": None if ys is None else [scaled(v, 4) for v in ys], "transform": _transform_ints(flw),
+            "xs4": xs4, "ys4": ys4, **xy_desc, "transform": _transform_ints(flw),
             "maps": [ints(m) for m in maps]}
     fargs = _feature_args(want, n, xs, ys, flw, shape, maps)
 
@@ -515,12 +572,11 @@ def _geofeatures_case(ctx, rng, flw, ds, shape):
             paths.append(p)
     use_xy = rng.random() < 0.5
     scale = 4 if use_xy else 2
-    xs = ys = None
-    call = {}
+    xs = ys = xs4 = ys4 = None
+    call, xy_desc = {}, {}
     if use_xy:
-        xs = np.array([rng.randint(-40, 40) / 4 for _ in range(n)], dtype=np.float64)
-        ys = np.array([rng.randint(-40, 40) / 4 for _ in range(n)], dtype=np.float64)
-        call.update(xs=xs, ys=ys.reshape(shape))
+        xs, ys, xs4, ys4, xy_call, xy_desc = _gen_xy(ctx, rng, n, shape)
+        call.update(xy_call)
     nmaps = rng.choice([0, 1, 2])
     maps = [np.array([rng.randint(-99, 99) for _ in range(n)], dtype=np.int64) for _ in range(nmaps)]
     kwargs = {f"m{j}": (_layout(maps[j].reshape(shape), rng) if rng.random() < 0.5 else maps[j]) for j in range(nmaps)}
@@ -534,8 +590,7 @@ def _geofeatures_case(ctx, rng, flw, ds, shape):
     except Exception as e:
         got = exc_class(e)
     desc = {"op": "geofeatures", "ds": ds, "shape": list(shape), "paths": paths,
-            "xs4": None if xs is None else [scaled(v, 4) for v in xs],
-            "ys4": None if ys is None else [scaled(v, 4) for v in ys], "transform": _transform_ints(flw),
+            "xs4": xs4, "ys4": ys4, **xy_desc, "transform": _transform_ints(flw),
             "maps": [ints(m) for m in maps], "bad_map": bad}
     if bad:
         ctx.evaluations += 1
